@@ -537,6 +537,14 @@ class Interp:
             fn = self.prog.resolve_method("", m.group(1), m.group(3), strip_generics(m.group(2)))
             if fn is not None and (fn + "::" + m.group(4)) in self.prog.const_index:
                 return fn + "::" + m.group(4)
+        # <Type as Trait>::method::{closure#n}::ITEM  (async_trait bodies)
+        m = re.match(r"^<(.*?) as (.*?)>::(\w+)((?:::\{closure#\d+\})+)::(\w+|promoted\[\d+\])$", plain)
+        if m:
+            fn = self.prog.resolve_method("", m.group(1), m.group(3), strip_generics(m.group(2)))
+            if fn is not None:
+                cand = fn.split("@")[0] + m.group(4) + "::" + m.group(5)
+                if cand in self.prog.const_index:
+                    return cand
         # Type::method::promoted[N]  ->  <impl at ..>::method::promoted[N]
         m = re.match(r"^(.*)::(\w+)::(promoted\[\d+\])$", plain)
         if m:
